@@ -85,6 +85,9 @@ REGIONS = {
     'spf': dict(spf=1.0),                                          # server priority functions (which free server is taken)
     'spf_sched': dict(spf=1.0, sched=1.0, noblock=True),
     'spf_block': dict(spf=1.0, block=0.8),
+    # C18: is a reported deadlock genuine when waiting customers can renege / when a Schedule brings new servers?
+    'deadlock_renege': dict(block=1.0, deadlock=True, renege=1.0),
+    'deadlock_sched': dict(block=1.0, deadlock=True, sched=1.0),
     'all': dict(prio=0.4, preempt=0.3, sched=0.3, schedpre=0.3, slotted=0.15, renege=0.3, dyn=0.2, routers=0.3,
                 block=0.4),
 }
